@@ -4,6 +4,8 @@
 mod util;
 mod c07;
 mod c06;
+mod gen;
+mod loops;
 
 fn main() {
     let args: Vec<String> = std::env::args().collect();
@@ -22,6 +24,7 @@ fn main() {
             match prop {
                 "C07" => c07::run(seed, n, out),
                 "C06" => c06::run(seed, n, out, false),
+                "C04" => loops::run_c04(seed, n, out),
                 "C16" => c06::run(seed, n, out, true),
                 _ => { eprintln!("unknown property {}", prop); std::process::exit(2) }
             }
@@ -29,6 +32,7 @@ fn main() {
         "replay" => match args[2].as_str() {
             "C07" => c07::replay(&args[3..]),
             "C06" | "C16" => c06::replay(&args[3..]),
+            "C04" => loops::replay_c04(&args[3..]),
             _ => { eprintln!("unknown property"); std::process::exit(2) }
         },
         _ => std::process::exit(2),
